@@ -186,6 +186,9 @@ def install_models(reg):
 
 
 # ====================================================================== the answer-set programs (C09), rule level
+_SPEC = {}
+
+
 def install_programs(reg):
     """_create_clingo_constraints / _create_clingo_fixed_point_constraints against a rule-level specification: the set of rules
     added to the clingo Control is EXACTLY the program of DESIGN.md 6.3 (two inclusions), and the enumeration mode matches the
@@ -332,6 +335,8 @@ def install_programs(reg):
         return clauses(c, A.Ctl.rules(c.ctl), pg) + [mode(c, c.ctl),
                                                       ("in_max_branch", z3.And(c.problem == 1, z3.Exists([p_], free_set(c)[p_])))]
 
+    _SPEC["trap_program"] = post
+    _SPEC["wf_net"] = wf_net
     reg.add(Contract(
         "biobalm.trappist_core._create_clingo_constraints",
         params=[("variables", LNm), ("petri_net", P.TPNG), ("problem", TInt), ("reverse_time", TBool),
@@ -406,6 +411,7 @@ def install_programs(reg):
             return fp_clauses(c, rules, d1, d4, d2, d3) + extra
         return f
 
+    _SPEC["fixed_point_program"] = fp_post
     reg.add(Contract(
         "biobalm.trappist_core._create_clingo_fixed_point_constraints",
         params=[("variables", LNm), ("petri_net", P.TPNG), ("ensure_subspace", OptSpace), ("avoid_subspaces", OptLS)],
@@ -425,3 +431,169 @@ def install_programs(reg):
         note="rule-level specification of the deadlock (fixed point) program; when some avoided space is the whole state space the "
              "program contains #false and the remaining rules are irrelevant",
     ))
+
+
+# ====================================================================== the solver drivers, verified against their bodies (C09)
+def install_async_bodies(reg):
+    """trappist_async against its body: the program handed to clingo is the specified program OF THE RIGHT ARGUMENTS (the variables and
+    sources of the given net, the given net itself, the given problem / direction / ensure / avoid), and the callback is fed the decoded
+    models of clingo's enumeration in order until it returns False.  Call sites keep the call-site view (`custom_apply`: an enumeration of
+    TrapSol); the step from the body-level postcondition to the call-site view is exactly the trusted mathematics L4 / L9 + clingo."""
+    import types
+    from pyvc import pnmodel as P
+    from pyvc import aspmodel as A
+    n_, v_ = z3.Const("n!ab", P.PNode), z3.Const("v!ab", Name)
+    j_ = z3.Int("j!ab")
+    LM, LB = A.LModels, TList(TBool)
+
+    def spec_ns(c, ctl):
+        g = c.network
+        src = z3.If(OptLN.is_none(c.optimize_source_variables), A.SortedNames(A.SrcSetG(g)), OptLN.val(c.optimize_source_variables))
+        return types.SimpleNamespace(variables=A.SortedNames(A.VarSetG(g)), petri_net=g, problem=c.problem, reverse_time=c.reverse_time,
+                                     ensure_subspace=c.ensure_subspace, avoid_subspaces=c.avoid_subspaces,
+                                     optimize_source_variables=OptLN.some(src), result=ctl)
+
+    def solved(c):
+        return c.st.ghost["solved_ctl"]
+
+    def decode_trap(atoms, v):
+        return z3.If(atoms[P.place(v, True)], 0, z3.If(atoms[P.place(v, False)], 1, -1))
+
+    def protocol(c, args, rets, ms, decode):
+        m = LS.len(args)
+        return z3.And(
+            m == LB.len(rets), 0 <= m, m <= LM.len(ms),
+            z3.ForAll([j_, v_], z3.Implies(z3.And(0 <= j_, j_ < m), LS.at(args)[j_][v_] == decode(P.atoms_of(LM.at(ms)[j_]), v_))),
+            z3.ForAll([j_], z3.Implies(z3.And(0 <= j_, j_ < m - 1), LB.at(rets)[j_])),
+            z3.Or(m == LM.len(ms), z3.And(m >= 1, z3.Not(LB.at(rets)[m - 1]))))
+
+    def wf_models(ms):
+        a_, b_ = z3.Const("a!wm", P.PNode), z3.Const("b!wm", P.PNode)
+        at = lambda j: P.atoms_of(LM.at(ms)[j])
+        return z3.ForAll([j_], z3.Implies(z3.And(0 <= j_, j_ < LM.len(ms)), z3.And(
+            z3.ForAll([a_], z3.Implies(at(j_)[a_], z3.And(P.is_place(a_), a_ == P.place(P.pvar(a_), P.ppos(a_))))),
+            z3.ForAll([a_, b_], z3.Implies(z3.And(at(j_)[a_], at(j_)[b_], P.pvar(a_) == P.pvar(b_)), a_ == b_)))))
+
+    names = ["choice_rules", "integrity_constraints", "disjunctive_facts", "siphon_or_trap_rules", "only_tautologies_besides", "never_false", "enumeration_mode"]
+
+    def post(c):
+        ctl = solved(c)
+        return [("program." + nm, g) for nm, g in _SPEC["trap_program"](spec_ns(c, ctl)) if nm in names] + [
+            ("callback_fed_the_decoded_models_in_order_until_false",
+             protocol(c, c.on_solution__args, c.on_solution__rets, A.EnumModels(ctl), decode_trap))]
+
+    def loop_inv(c):
+        ctl = c.ctl
+        ms = A.EnumModels(ctl)
+        args, rets = c.on_solution__args, c.on_solution__rets
+        return [("one_call_per_visited_model", z3.And(
+            LS.len(args) == c.i, LB.len(rets) == c.i, c.coll == ms,
+            z3.ForAll([j_, v_], z3.Implies(z3.And(0 <= j_, j_ < c.i), LS.at(args)[j_][v_] == decode_trap(P.atoms_of(LM.at(ms)[j_]), v_))),
+            z3.ForAll([j_], z3.Implies(z3.And(0 <= j_, j_ < c.i), LB.at(rets)[j_]))))]
+
+    old = reg.contracts["biobalm.trappist_core.trappist_async"]
+    reg.add(Contract(
+        "biobalm.trappist_core.trappist_async",
+        params=old.params, defaults=old.defaults, custom_apply=old.custom_apply, properties=("C09", "C17", "C19"),
+        body_params=[("network", P.TPNG), ("on_solution", E._Callback.param(TSpace)), ("problem", TInt), ("reverse_time", TBool),
+                     ("ensure_subspace", OptSpace), ("avoid_subspaces", OptLS), ("optimize_source_variables", OptLN)],
+        requires=[lambda c: _SPEC["wf_net"](types.SimpleNamespace(petri_net=c.network)),
+                  lambda c: z3.ForAll([n_], z3.Implies(z3.And(P.PNGraph.nodes(c.network)[n_], P.is_place(n_)), n_ == P.place(P.pvar(n_), P.ppos(n_)))),
+                  lambda c: z3.And(0 <= c.problem, c.problem <= 2),
+                  lambda c: z3.Implies(z3.Not(OptSpace.is_none(c.ensure_subspace)), T.wf_space(OptSpace.val(c.ensure_subspace))),
+                  lambda c: z3.Implies(z3.Not(OptLS.is_none(c.avoid_subspaces)), elems_wf(OptLS.val(c.avoid_subspaces)))],
+        ensures=[(nm, (lambda k: (lambda c: dict(post(c))[k]))(nm)) for nm in ["program." + x for x in names] +
+                 ["callback_fed_the_decoded_models_in_order_until_false"]],
+        raises={"RuntimeError": []}, may_raise={"RuntimeError": {}},
+        axioms=P.AX_PLACE + A.AX_MEMNAME + A.AX_SORTED + A.AX_NAMESETS,
+        lemmas=[("L9.models_of_the_trap_program", lambda c: wf_models(A.EnumModels(c.ctl)))],
+        local_types={"ctl": A.TCtl, "variables": A.LNm}, merge_ifs=True,
+        loops={0: LoopContract("for model in iterator", loop_inv, lemmas=[("L9.models_of_the_trap_program", lambda c: wf_models(A.EnumModels(c.ctl)))])},
+        note="BODY verified for a Petri-net argument (the BooleanNetwork branch translates first and is assumed with network_to_petrinet); "
+             "call sites use the call-site view: enumerates TrapSol(pn, problem, reverse, ensure, avoid, sources) and feeds each solution to "
+             "on_solution until it returns False (glue: L4 / L9 + clingo domRec enumeration, trusted)"))
+
+    # ------------------------------------------------------------------ compute_fixed_point_reduced_STG_async
+    G_ = P.PNGraph
+    vr = z3.Const("v!rd", Name)
+
+    def src_place(R, v):
+        return P.place(v, R[v] == 1)
+
+    def deleted_by(g, R, v, n):
+        """transition n leaves the retained value of v: it consumes the place of the retained value without putting it back"""
+        sp = src_place(R, v)
+        return z3.And(G_.edge(g)[sp][n], z3.Not(G_.edge(g)[n][sp]))
+
+    def reduced_nodes(g, R, which):
+        return z3.Lambda([n_], z3.And(G_.nodes(g)[n_], z3.Not(z3.Exists([vr], z3.And(which(vr), R[vr] >= 0, deleted_by(g, R, vr, n_))))))
+
+    def reduced(c, which=None):
+        g, R = c.petri_net, c.retained_set
+        return G_.mk(reduced_nodes(g, R, which or (lambda v: z3.BoolVal(True))), G_.edge(g))
+
+    def decode_fp(atoms, v):
+        return z3.If(atoms[P.place(v, True)], 1, z3.If(atoms[P.place(v, False)], 0, -1))
+
+    def fp_ns(c, ctl):
+        gr = reduced(c)
+        return types.SimpleNamespace(variables=A.SortedNames(A.VarSetG(gr)), petri_net=gr, ensure_subspace=c.ensure_subspace,
+                                     avoid_subspaces=c.avoid_subspaces, result=ctl)
+
+    FN = ["choice_rules", "integrity_constraints", "disjunctive_facts", "no_other_rules", "false_iff_some_avoided_space_is_everything", "enumeration_mode"]
+
+    def fp_post(c):
+        ctl = solved(c)
+        return [("program." + nm, g) for nm, g in _SPEC["fixed_point_program"](fp_ns(c, ctl)) if nm in FN] + [
+            ("callback_fed_the_decoded_models_in_order_until_false",
+             protocol(c, c.on_solution__args, c.on_solution__rets, A.EnumModels(ctl), decode_fp))]
+
+    def outer_inv(c):
+        cur = c.reduced_petri_net
+        return [("reduced_by_the_visited_variables", cur == reduced(c, lambda v: c.visited[v]))]
+
+    def inner_inv(c):
+        o = c.outer(0)
+        g, R, cur = c.petri_net, c.retained_set, c.reduced_petri_net
+        head = c.at_head(0, "reduced_petri_net")
+        return [("outer_state", head == reduced(c, lambda v: o["visited"][v])),
+                ("current_variable", z3.And(R[c.node] >= 0, z3.Not(o["visited"][c.node]), c.b_i == R[c.node], c.source_place == src_place(R, c.node))),
+                ("to_delete", z3.ForAll([n_], c.coll[n_] == z3.And(G_.nodes(head)[n_], deleted_by(g, R, c.node, n_)))) if False else
+                ("removed_so_far", z3.And(G_.edge(cur) == G_.edge(g), z3.ForAll([n_], G_.nodes(cur)[n_] == z3.And(G_.nodes(head)[n_], z3.Not(c.visited[n_])))))]
+
+    def fp_loop_inv(c):
+        ms = A.EnumModels(c.ctl)
+        args, rets = c.on_solution__args, c.on_solution__rets
+        return [("one_call_per_visited_model", z3.And(
+            LS.len(args) == c.i, LB.len(rets) == c.i, c.coll == ms,
+            z3.ForAll([j_, v_], z3.Implies(z3.And(0 <= j_, j_ < c.i), LS.at(args)[j_][v_] == decode_fp(P.atoms_of(LM.at(ms)[j_]), v_))),
+            z3.ForAll([j_], z3.Implies(z3.And(0 <= j_, j_ < c.i), LB.at(rets)[j_]))))]
+
+    oldf = reg.contracts["biobalm.trappist_core.compute_fixed_point_reduced_STG_async"]
+    reg.add(Contract(
+        "biobalm.trappist_core.compute_fixed_point_reduced_STG_async",
+        params=oldf.params, defaults=oldf.defaults, custom_apply=oldf.custom_apply, properties=("C09", "C08", "C19"),
+        body_params=[("petri_net", P.TPNG), ("retained_set", TSpace), ("on_solution", E._Callback.param(TSpace)),
+                     ("ensure_subspace", OptSpace), ("avoid_subspaces", OptLS)],
+        requires=[lambda c: _SPEC["wf_net"](types.SimpleNamespace(petri_net=c.petri_net)),
+                  lambda c: z3.ForAll([n_], z3.Implies(z3.And(G_.nodes(c.petri_net)[n_], P.is_place(n_)), n_ == P.place(P.pvar(n_), P.ppos(n_)))),
+                  lambda c: T.wf_space(c.retained_set),
+                  # networkx raises for an unknown node: the retained variables are variables of the net
+                  lambda c: z3.ForAll([vr], z3.Implies(c.retained_set[vr] >= 0, G_.nodes(c.petri_net)[src_place(c.retained_set, vr)])),
+                  # places are never deleted (they are not successors-only of a place): the net is bipartite
+                  lambda c: z3.ForAll([n_, z3.Const("m!rd", P.PNode)], z3.Implies(
+                      z3.And(G_.nodes(c.petri_net)[n_], G_.nodes(c.petri_net)[z3.Const("m!rd", P.PNode)], G_.edge(c.petri_net)[n_][z3.Const("m!rd", P.PNode)]),
+                      P.is_place(n_) != P.is_place(z3.Const("m!rd", P.PNode)))),
+                  lambda c: z3.Implies(z3.Not(OptSpace.is_none(c.ensure_subspace)), T.wf_space(OptSpace.val(c.ensure_subspace))),
+                  lambda c: z3.Implies(z3.Not(OptLS.is_none(c.avoid_subspaces)), elems_wf(OptLS.val(c.avoid_subspaces)))],
+        ensures=[(nm, (lambda k: (lambda c: dict(fp_post(c))[k]))(nm)) for nm in ["program." + x for x in FN] +
+                 ["callback_fed_the_decoded_models_in_order_until_false"]],
+        raises={"RuntimeError": []}, may_raise={"RuntimeError": {}},
+        axioms=P.AX_PLACE + A.AX_MEMNAME + A.AX_SORTED + A.AX_NAMESETS,
+        lemmas=[("L9.models_of_the_deadlock_program", lambda c: wf_models(A.EnumModels(c.ctl)))],
+        local_types={"ctl": A.TCtl, "reduced_petri_net": P.TPNG, "source_place": P.TPNode, "b_i": TInt}, merge_ifs=True,
+        loops={0: LoopContract("for node in retained_set.keys()", outer_inv),
+               1: LoopContract("for trans in deleted_transitions", inner_inv),
+               2: LoopContract("for model in iterator", fp_loop_inv, lemmas=[("L9.models_of_the_deadlock_program", lambda c: wf_models(A.EnumModels(c.ctl)))])},
+        note="BODY verified: the net is reduced by exactly the transitions that leave a retained value, the deadlock program of the reduced net "
+             "is built for its own variables, and the callback protocol is followed; call sites use the call-site view (enumeration of ReducedSol)"))
